@@ -49,7 +49,7 @@ def units(tier):
             if not q and len(h) == 3 and k % 5:
                 continue
             us.append(dict(h="history", hist=h, final=fin, same=(k % 4 == 0), std="f2008" if (fin == 2 or k % 2) else "f2003", cost=len(h)))
-    for n in ((2, 3) if q else (2, 3, 4)):
+    for n in ((2,) if q else (2, 3)):
         us.append(dict(h="memo", n=n, cost=n))
     return us
 
@@ -58,7 +58,7 @@ def meta(tier):
     q = tier == "quick"
     return dict(bounds=dict(history_len=2 if q else 3, alphabet=OPS, valid_programs=len(VALID), invalid_programs=len(INVALID),
                             symbolic="unit name of the history programs and unit name of the final program (1 character each: equal or different)",
-                            memo_line_len=4 if q else 5),
+                            memo_line_len=2 if q else 3),
                 assumptions=["the hard-reset reference = memo cleared, SYMBOL_TABLES.clear(), BLOCK counter 0, then the real ParserFactory.create(std) (validated against a fresh native process by witness replay)",
                              "synthetic BLOCK scope names are renumbered before comparing (process-wide counter by design)"],
                 budget_s=400 if q else 2400, unit_budget_s=60 if q else 300, witness_every=10)
